@@ -31,12 +31,14 @@ def short(s, n=230):
     return s if len(s) <= n else s[:n - 1] + "…"
 
 def seeded_table():
-    out = ["| id | change (one line) | needs | caught by (check: first rule that fires) |", "|---|---|---|---|"]
+    out = ["| id | round | change (one line) | needs | first contact: caught by | now caught by (check: first rule that fires) |", "|---|---|---|---|---|---|"]
     for p in sorted(glob.glob(os.path.join(HERE, "seeded", "*", "meta.json"))):
         m = json.load(open(p))
         fired = m.get("fired", {})
+        fr = m.get("first_run_caught_by")
+        fr_s = "(see §9.5)" if fr is None else (", ".join(fr) or "nothing")
         cb = "; ".join("**%s**: `%s`" % (k, short(fired[k][0], 110).replace("|", "\\|")) if fired.get(k) else k for k in m.get("caught_by", []))
-        out.append("| %s | %s | %s | %s |" % (m["id"], short(m.get("summary", "")).replace("|", "\\|"), short(m.get("needs", ""), 160).replace("|", "\\|"), cb))
+        out.append("| %s | %s | %s | %s | %s | %s |" % (m["id"], m.get("round", 1), short(m.get("summary", "")).replace("|", "\\|"), short(m.get("needs", ""), 160).replace("|", "\\|"), fr_s, cb))
     return "\n".join(out)
 
 def hand_table():
@@ -63,13 +65,20 @@ def regress_table():
     return "\n".join(out)
 
 def refactors_table():
-    out = ["| id | refactoring (one line) | repository tests | alarms |", "|---|---|---|---|"]
+    out = ["| id | round | refactoring (one line) | repository tests | checks that alarmed on first contact | now |", "|---|---|---|---|---|---|"]
     for p in sorted(glob.glob(os.path.join(HERE, "refactors", "*", "meta.json"))):
         m = json.load(open(p))
         al = m.get("alarms") or {}
-        out.append("| %s | %s | %s | %s |" % (m["id"], short(m.get("summary") or "", 260).replace("|", "\\|"), m.get("suite", "-") + ((" (excluded: " + m["exclude"] + ")") if m.get("exclude") else ""),
-                                          "none" if not al else "; ".join("%s: %s" % (k, short(str(v.get("keys") or v.get("tail")), 80).replace("|", "\\|")) for k, v in sorted(al.items()))))
+        first = m.get("first_run_alarms")
+        first_s = "(first round: see §9.7)" if first is None and m["id"].startswith("R") else ("none" if not first else ", ".join(sorted(first)))
+        out.append("| %s | %s | %s | %s | %s | %s |" % (m["id"], m.get("round", 1), short(m.get("summary") or "", 200).replace("|", "\\|"), m.get("suite", "-") + ((" (excluded: " + m["exclude"] + ")") if m.get("exclude") else ""),
+                                                  first_s, "silent" if not al else "ALARMS: " + ", ".join(sorted(al))))
     return "\n".join(out)
+
+
+def seeded_first_run():
+    return ""
+
 
 def main():
     p = os.path.join(HERE, "DESIGN.md")
